@@ -143,6 +143,16 @@ class Gen:
 
     def visible(self, units, chain, cls):
         """names of class cls FORD or Fortran could see from the innermost scope of chain (generator-side)"""
+        if cls == "CProc":
+            # procedures and abstract interfaces are identifiers of one kind: the innermost scope that has
+            # the name in either role decides
+            seen = {}
+            for s in chain:
+                for n in own_names(s)["CAbs"] + [n for n, _ in imports_of(units, s)["CAbs"]]:
+                    seen[n] = False
+                for n in own_names(s)["CProc"] + [n for n, _ in imports_of(units, s)["CProc"]]:
+                    seen[n] = True
+            return sorted(n for n, is_proc in seen.items() if is_proc)
         out = []
         for s in chain:
             out += own_names(s)[cls]
